@@ -141,6 +141,8 @@ def run(chk):
         acts = [x["act"] for x in b]
         k = len([a for a in acts if a == "Add"])
         txs = [x["args"]["tx"] for x in b if x["act"] == "MatchTx"]
+        if any(x not in ("Add", "MatchTx") for x in acts):
+            return False
         return acts[:k] == ["Add"] * k and len(txs) >= 2 and len(set(txs)) == len(txs) and any(x.get("must") for x in b[k:])
     bb, stb = vf.behaviours(rb, dedupe_prefixes=True)
     bb = [b for b in bb if block_shaped(b)]
